@@ -365,7 +365,7 @@ func unexpandedStore(fn *ssa.Function, msg *types.Named) string {
 		}
 	}
 	for _, b := range fn.Blocks {
-		for i, instr := range b.Instrs {
+		for _, instr := range b.Instrs {
 			st, ok := instr.(*ssa.Store)
 			if !ok {
 				continue
@@ -379,7 +379,7 @@ func unexpandedStore(fn *ssa.Function, msg *types.Named) string {
 			}
 			dominated := false
 			for _, c := range calls[al] {
-				if (c.b == b && c.i < i) || (c.b != b && c.b.Dominates(b)) {
+				if c.b == b || c.b.Dominates(b) { // same block: straight-line code, the order of storing the pointer and expanding the copy does not matter
 					dominated = true
 				}
 			}
